@@ -26,8 +26,11 @@ Definition two32 : Z := 4294967296.
 Definition two63 : Z := 9223372036854775808.
 Definition two64 : Z := 18446744073709551616.
 
-Definition wrap32 (z : Z) : Z := (z + two31) mod two32 - two31.
-Definition wrap64 (z : Z) : Z := (z + two63) mod two64 - two63.
+(* the in-range test is only a fast path for evaluation: the modular formula gives z there too *)
+Definition wrap32 (z : Z) : Z :=
+  if (- two31 <=? z) && (z <? two31) then z else (z + two31) mod two32 - two31.
+Definition wrap64 (z : Z) : Z :=
+  if (- two63 <=? z) && (z <? two63) then z else (z + two63) mod two64 - two63.
 
 (* x << uint(s) on int64 / int32;  x >> uint(s) on int64 (arithmetic) *)
 Definition shl64 (x s : Z) : Z := if (s <? 0) || (64 <=? s) then 0 else wrap64 (Z.shiftl x s).
